@@ -22,6 +22,9 @@ ASSUMPTIONS = [
 TEMPO = ((0, 120000), (10, 90000), (20, 150000), (30, 60000), (40, 200000), (50, 1000))
 TEMPO_DENSE = ((0, 120000), (1, 90000), (2, 150000), (3, 60000), (4, 200000))
 # markers that merely restate the tempo in force (Moonscraper writes one next to every anchor)
+# environments in which a whole tick (or ten) lasts less than half a microsecond, so that times near tick 0 ROUND to 0:
+# the checks of the statement are about TICKS (codes 201.. : very fast tempo at resolution 960; 301.. : resolution 10^9)
+TEMPO_FAST = ((0, 700000000), (10, 900000000), (20, 1000000000), (30, 800000000))
 TEMPO_RESTATE = ((0, 120000), (10, 120000), (20, 90000), (30, 90000), (40, 90000), (50, 150000))
 KINDS = ("TS", "text", "section", "lyric", "S", "E", "N", "Nend")
 LONG = (9, 10, 16, 17, 18, 33, 40, 65)  # tempo-map lengths around plausible fast-path thresholds
@@ -70,6 +73,8 @@ def plan(tier, seed):
         shards += [("corrupt", -k) for k in range(2, 6)] + [("zero", -k, j) for k in range(2, 6) for j in range(k)]
     shards += [("long", n) for n in LONG]
     shards += [("corrupt", 100 + k) for k in range(2, 7)] + [("zero", 100 + k, j) for k in range(2, 7) for j in range(k)]
+    shards += [("corrupt", 200 + k) for k in range(1, 5)] + [("zero", 200 + k, j) for k in (2, 4) for j in range(k)]
+    shards += [("corrupt", 300 + k) for k in range(1, 4)] + [("zero", 303, j) for j in range(3)]
     return dict(shards=shards, bounds=dict(tempo_events="1..%d%s" % (kmax, "" if tier == "quick" else " (gaps 10) and 2..5 (gaps 1)"), event_kinds=list(KINDS), placements="tick-1, tick, tick+1 of each tempo event"), budget_s=300)
 
 
@@ -97,6 +102,17 @@ def chart(tempo, ts=((0, 4),), res="192", extra=((), (), ())):
     return mk(res=res, sync=sync, events=list(extra[1]), tracks={"ExpertSingle": list(extra[2])})
 
 
+def base_of(k):
+    """shard code -> (tempo map, resolution)"""
+    if k > 300:
+        return list(TEMPO[: k - 300]), "1000000000"
+    if k > 200:
+        return list(TEMPO_FAST[: k - 200]), "960"
+    if k > 100:
+        return list(TEMPO_RESTATE[: k - 100]), "192"
+    return (list(TEMPO[:k]) if k > 0 else list(TEMPO_DENSE[:-k])), "192"
+
+
 def expect(ctx, text, what, corrupted=True):
     res = refmodel.model(text)
     got = impl.model_outcome(text, "file", None, (), "model")
@@ -118,8 +134,7 @@ def expect(ctx, text, what, corrupted=True):
 def run_shard(shard, ctx):
     kind = shard[0]
     if kind == "corrupt":
-        k = shard[1]
-        b = list(TEMPO_RESTATE[: k - 100]) if k > 100 else (list(TEMPO[:k]) if k > 0 else list(TEMPO_DENSE[:-k]))
+        b, RES = base_of(shard[1])
         k = len(b)
         ctx.node()
         placements = [((), (), ())]
@@ -130,30 +145,30 @@ def run_shard(shard, ctx):
             ctx.node()
             if ctx.out_of_time():
                 return
-            expect(ctx, chart(b, extra=extra), "none (well-formed base)", corrupted=False)
-            expect(ctx, chart(b[1:], extra=extra), "tick-0 tempo dropped")
-            expect(ctx, chart([(1, b[0][1])] + b[1:] if k == 1 or b[1][0] > 1 else b[1:], extra=extra), "tick-0 tempo shifted to tick 1")
-            expect(ctx, chart(b, ts=(), extra=extra), "tick-0 signature dropped")
-            expect(ctx, chart(b, ts=((1, 4),), extra=extra), "tick-0 signature shifted to tick 1")
-            expect(ctx, chart(b, ts=((5, 4), (9, 3)), extra=extra), "tick-0 signature dropped, later signatures kept")
+            expect(ctx, chart(b, extra=extra, res=RES), "none (well-formed base)", corrupted=False)
+            expect(ctx, chart(b[1:], extra=extra, res=RES), "tick-0 tempo dropped")
+            expect(ctx, chart([(1, b[0][1])] + b[1:] if k == 1 or b[1][0] > 1 else b[1:], extra=extra, res=RES), "tick-0 tempo shifted to tick 1")
+            expect(ctx, chart(b, ts=(), extra=extra, res=RES), "tick-0 signature dropped")
+            expect(ctx, chart(b, ts=((1, 4),), extra=extra, res=RES), "tick-0 signature shifted to tick 1")
+            expect(ctx, chart(b, ts=((5, 4), (9, 3)), extra=extra, res=RES), "tick-0 signature dropped, later signatures kept")
             for r in ("0", "00"):
                 expect(ctx, chart(b, res=r, extra=extra), "Resolution = %s" % r)
             for j in range(k - 1):
                 dup = list(b)
                 dup[j + 1] = (b[j][0], b[j + 1][1])
-                expect(ctx, chart(dup, extra=extra), "tempo tick %d duplicated" % b[j][0])
+                expect(ctx, chart(dup, extra=extra, res=RES), "tempo tick %d duplicated" % b[j][0])
                 sw = list(b)
                 sw[j], sw[j + 1] = sw[j + 1], sw[j]
-                expect(ctx, chart(sw, extra=extra), "tempo lines %d and %d swapped" % (j, j + 1))
+                expect(ctx, chart(sw, extra=extra, res=RES), "tempo lines %d and %d swapped" % (j, j + 1))
                 back = list(b)
                 back[j + 1] = (b[j][0] - 1 if b[j][0] > 0 else 0, b[j + 1][1])
-                expect(ctx, chart(back, extra=extra), "tempo event %d moved before its predecessor" % (j + 1))
+                expect(ctx, chart(back, extra=extra, res=RES), "tempo event %d moved before its predecessor" % (j + 1))
                 same = list(b)  # the duplicated tick also REPEATS the tempo value
                 same[j + 1] = (b[j][0], b[j][1])
-                expect(ctx, chart(same, extra=extra), "tempo line %d written twice" % j)
+                expect(ctx, chart(same, extra=extra, res=RES), "tempo line %d written twice" % j)
     elif kind == "zero":
         _, k, j = shard
-        b = list(TEMPO_RESTATE[: k - 100]) if k > 100 else (list(TEMPO[:k]) if k > 0 else list(TEMPO_DENSE[:-k]))
+        b, RES = base_of(k)
         z = list(b)
         z[j] = (b[j][0], 0)
         ctx.node()
@@ -161,7 +176,7 @@ def run_shard(shard, ctx):
         for kd in (None,) + KINDS:
             for t in ticks if kd else (0,):
                 extra = event_lines(kd, t) if kd else ((), (), ())
-                text = chart(z, extra=extra)
+                text = chart(z, extra=extra, res=RES)
                 got = expect(ctx, text, "tempo %d := 0%s" % (j, "" if kd is None else ", %s event at tick %d" % (kd, t)))
                 if got is not None:
                     _queries(ctx, text, z)
